@@ -170,6 +170,19 @@ def analyse(steps, trailing_notes=()):
     update_log = []
     connected_ms = {}
     nodes_checks = []
+    chans_checks = []   # (ep, ret, step, drained at that point)
+    acc_step = {}       # ep -> {pid: step index at which the packet was accepted}
+    connected = {}      # ep -> True once the endpoint is in the connected state (seqinit, connect event, accept)
+    onaccept_id = {}    # address -> endpoint id the harness gives the accepted connection
+    last_update_idx = {}
+    drain_idx = None
+    for st in steps:
+        if st.op == "ifconn":
+            # conditional application call: skipped on an endpoint that is not connected (or closed), otherwise the inner op
+            if "ret skip" in st.events or len(st.args) < 2:
+                st.op, st.args = "noop", []
+            else:
+                st.op, st.args = st.args[1], st.args[2:]
     for st in steps:
         for n in st.notes:
             t = n.split()
@@ -178,6 +191,8 @@ def analyse(steps, trailing_notes=()):
                 peers[int(t[2])] = int(t[1])
             elif t[0] == "drained":
                 drained = True
+                if drain_idx is None:
+                    drain_idx = st.idx
             elif t[0] == "drain":
                 section = "drain"
             elif t[0] == "expect":
@@ -261,6 +276,27 @@ def analyse(steps, trailing_notes=()):
                 sent.setdefault((ep, ch, bool(fl & 8)), []).append(rec)
                 sent_all.setdefault(ep, []).append(rec)
             pending_since_emit[ep] = True
+        if op == "onaccept" and len(a) >= 3:
+            onaccept_id[a[1]] = int(a[2])
+        if clock_mode and op == "flush" and a:
+            ep = int(a[0])
+            le = last_emit.get(ep)
+            emitted = any(e.startswith("out %d " % ep) for e in st.events)
+            if connected.get(ep) and ep not in closed_conn and le is not None and now_ms - le >= 200 and not emitted:
+                V.append(Violation("C15", "keepalive-missing", "connected endpoint %d flushed %d ms after its previous emission and sent nothing" % (ep, now_ms - le), st))
+        if clock_mode and op == "update" and a:
+            ep = int(a[0])
+            if ep not in closed_conn:
+                timed_out = any(e == "disconnect %d 6" % ep or e.startswith("disconnect %d 6 " % ep) for e in st.events)
+                lr = last_recv.get(ep)
+                if timed_out and not connected.get(ep):
+                    V.append(Violation("C15", "timeout-spurious", "endpoint %d reported a connection timeout while not connected (still handshaking)" % ep, st))
+                elif timed_out and lr is not None and now_ms - lr <= 120000:
+                    V.append(Violation("C15", "timeout-spurious", "endpoint %d reported a timeout %d ms after its last received packet" % (ep, now_ms - lr), st))
+                elif not timed_out and connected.get(ep) and lr is not None and now_ms - lr > 120000 and not any(e.startswith("disconnect %d " % ep) for e in st.events):
+                    V.append(Violation("C15", "timeout-missing", "endpoint %d is connected, silent for %d ms, and update reported no timeout" % (ep, now_ms - lr), st))
+        if op == "update" and a:
+            last_update_idx[int(a[0])] = st.idx
         for ev in st.events:
             if ev.startswith("out "):
                 t = ev.split()
@@ -275,7 +311,9 @@ def analyse(steps, trailing_notes=()):
                     le = last_emit.get(ep)
                     if le is not None and not pending_since_emit.get(ep) and now_ms - le < 200:
                         V.append(Violation("C15", "keepalive-early", "empty packet %d ms after the previous emission" % (now_ms - le), st))
-                if op in ("flush", "send", "lsend") or ev:
+                if op in ("flush", "send", "sendfill", "lsend"):
+                    # only packets of the data path count for the keep-alive cadence; a handshake datagram re-sent by a connected
+                    # endpoint in answer to a stray handshake datagram does not (nor does it in the protocol this code re-implements)
                     last_emit[ep] = now_ms
                     pending_since_emit[ep] = False
             elif ev.startswith("recv "):
@@ -328,6 +366,7 @@ def analyse(steps, trailing_notes=()):
                 if accepted[ep] and pid <= max(accepted[ep]):
                     V.append(Violation("C04", "old-packet", "packet %d accepted after a newer one" % pid, st))
                 accepted[ep][pid] = acked
+                acc_step.setdefault(ep, {})[pid] = st.idx
                 if not acked:
                     stats["skipacks"] += 1
                     skipack_seen.add(ep)
@@ -337,10 +376,16 @@ def analyse(steps, trailing_notes=()):
                 stats["connects"] += 1
                 connects[int(t[1])] = connects.get(int(t[1]), 0) + 1
                 last_recv[int(t[1])] = now_ms
+                last_emit[int(t[1])] = now_ms     # the keep-alive interval of a client starts when its handshake completes
+                connected[int(t[1])] = True
             elif ev.startswith("accept "):
                 t = ev.split()
                 stats["accepts"] += 1
                 accepts[t[3]] = accepts.get(t[3], 0) + 1
+                if t[3] in onaccept_id:
+                    connected[onaccept_id[t[3]]] = True
+                    last_recv[onaccept_id[t[3]]] = now_ms
+                    last_emit[onaccept_id[t[3]]] = now_ms
             elif ev.startswith("disconnect "):
                 t = ev.split()
                 reason = int(t[2])
@@ -376,6 +421,9 @@ def analyse(steps, trailing_notes=()):
         if op == "seqinit":
             last_recv[int(a[0])] = now_ms
             last_emit[int(a[0])] = now_ms
+            connected[int(a[0])] = True
+        if op == "chans" and a:
+            chans_checks.append((int(a[0]), ret, st, drained))
         for ev in st.events:
             if ev.startswith("A conn") and op in ("route", "ldlv", "lmut", "lraw"):
                 pass
@@ -513,6 +561,9 @@ def analyse(steps, trailing_notes=()):
                     V.append(Violation("C01", rule, "reliable delivery #%d on ch %d is %s, expected %s" % (i, ch, {k: g[k] for k in ("flags", "bits", "hash")}, {k: w[k] for k in ("flags", "bits", "hash")}), g["step"]))
                     if not same:
                         V.append(Violation("C04", "forged", "delivered bunch matches no sent bunch", g["step"]))
+                    elif all(j < i for j in same):
+                        # everything before position i was delivered matching the sends, so this content has been handed over before
+                        V.append(Violation("C04", "dup", "reliable bunch #%d on ch %d delivered a second time (as delivery #%d)" % (same[0], ch, i), g["step"]))
                     break
         else:
             # unreliable: subsequence of sent, each at most once.  Bunches with equal fields are told apart by the
@@ -552,6 +603,58 @@ def analyse(steps, trailing_notes=()):
                     V.append(Violation("C10", "lost", "reliable data of a closed channel %d never delivered" % ch, w["step"]))
                 if w["flags"] & 64:
                     V.append(Violation("C03", "lost", "reliable partial group never delivered", w["step"]))
+    # ---------------- C03: an unreliable group whose packets were all accepted, on a channel already open at the receiver, with no
+    # reliable group in its way, is delivered
+    wrapped_any = any(s_.op.startswith("w") and s_.op != "wb" for s_ in steps)
+    if not hostile and not wrapped_any and not closed_conn and not closed_state:
+        for (src, ch, rel), want in sent.items():
+            dst = peers.get(src)
+            if rel or dst is None:
+                continue
+            on_ch = [r for r in sent_all.get(src, []) if r["ch"] == ch]
+            if any(r["flags"] & 2 for r in on_ch) or any((r["flags"] & 64) and (r["flags"] & 8) for r in on_ch):
+                continue   # channel closed in this session / reliable groups on this channel: not claimed
+            i = 0
+            while i < len(on_ch):
+                r0 = on_ch[i]
+                if not (r0["flags"] & 64 and r0["flags"] & 128 and not r0["flags"] & 8):
+                    i += 1
+                    continue
+                grp = [r0]
+                j = i + 1
+                while not (grp[-1]["flags"] & 256) and j < len(on_ch) and (on_ch[j]["flags"] & 64) and not (on_ch[j]["flags"] & (8 | 128)):
+                    grp.append(on_ch[j])
+                    j += 1
+                i = j
+                if not (grp[-1]["flags"] & 256) or len(grp) < 2 or any(g["pid"] is None for g in grp):
+                    continue
+                pids = [g["pid"] for g in grp]
+                if any(not (0 <= pids[k + 1] - pids[k] <= 1) for k in range(len(pids) - 1)):
+                    continue   # the sender itself put other packets between the fragments
+                acc = accepted.get(dst, {})
+                if any(p not in acc for p in pids):
+                    continue
+                # a packet that was accepted but not acknowledged only counts when nothing but this group travelled in it
+                mine = set(id(g) for g in grp)
+                if any(not acc[p] and any(id(x) not in mine for x in sent_all.get(src, []) if x["pid"] == p) for p in set(pids)):
+                    continue
+                first_step = acc_step.get(dst, {}).get(pids[0])
+                opened = [x for x in recv_all.get(dst, []) if x["ch"] == ch and x["step"].idx < first_step]
+                if first_step is None or not opened:
+                    continue
+                got = [x for x in recvd.get((dst, ch, False), []) if x["hash"] == grp[-1]["hash"] and x["pktid"] == pids[-1] and x["group"] == len(grp)]
+                if not got:
+                    V.append(Violation("C03", "ulost", "unreliable group of %d fragments on ch %d (packets %s, all accepted, channel open, no reliable group pending) was not delivered" % (len(grp), ch, sorted(set(pids))), grp[0]["step"]))
+    # ---------------- C10: once the close has been delivered and acknowledged both sides have released the channel
+    for ep, r, st, dr in chans_checks:
+        if not dr or r is None or hostile or closed_conn or ep in uninit:
+            continue
+        if drain_idx is None or last_update_idx.get(ep, -1) < drain_idx:
+            continue   # the deferred teardown runs in update
+        for item in r.split()[1:]:
+            f = item.split(":")
+            if len(f) == 4 and f[1] == "1":
+                V.append(Violation("C10", "held", "endpoint %d still holds closed channel %s (%s sent, %s received bunches queued) after the close was delivered, acknowledged and update ran" % (ep, f[0], f[2], f[3]), st))
     # ---------------- C18 / C11: a genuine datagram that the peer could not parse
     if not hostile:
         for ep, reason in list(closed_state.items()) + list(closed_conn.items()):
